@@ -19,7 +19,7 @@ CtxOps == { <<W("a")>>, <<W("b"), O("as"), W("c")>>, <<W("a"), O(":"), W("@T")>>
             <<W("a"), O(","), W("b")>>, <<W("h"), O("("), W("g"), O("("), W("y"), O(")"), O(")")>> }
 Laws == {"gt-vs-bang", "gt-with-context", "chain-assoc", "chain-nested", "chain-ctx", "call-as", "call-ctx-as",
          "dollar", "dollar-in", "call-eq", "in-gt-vs-bang", "in-chain-nested", "in-call-as", "in-chain-call-as", "in-call-eq",
-         "root-chain-call-as"}
+         "root-chain-call-as", "dollar-cat", "dollar-val", "dollar-match", "dollar-cat-val"}
 GT == <<O(">")>>  LPAR == <<O("(")>>  RPAR == <<O(")")>>  BANG == <<O("!")>>  COMMA == <<O(",")>>
 Lhs(law, fn, cap, ctx) ==
   CASE law = "gt-vs-bang"      -> fn \o GT \o cap
@@ -38,6 +38,10 @@ Lhs(law, fn, cap, ctx) ==
     [] law = "in-chain-call-as" -> <<W("h")>> \o LPAR \o ctx \o COMMA \o <<W("g")>> \o GT \o fn \o LPAR \o RPAR \o <<O("as"), W("r")>> \o RPAR
     [] law = "in-call-eq"      -> <<W("h")>> \o LPAR \o <<W("q")>> \o COMMA \o fn \o LPAR \o ctx \o RPAR \o <<O("="), W("1")>> \o RPAR
     [] law = "root-chain-call-as" -> <<W("g")>> \o GT \o fn \o LPAR \o ctx \o RPAR \o <<O("as"), W("r")>>
+    [] law = "dollar-cat"      -> fn \o LPAR \o ctx \o RPAR \o GT \o <<O("$"), W("x")>> \o <<O(":"), W("@T")>>
+    [] law = "dollar-val"      -> fn \o LPAR \o <<O("$"), W("x")>> \o <<O("="), W("1")>> \o RPAR \o GT \o cap
+    [] law = "dollar-match"    -> fn \o LPAR \o <<O("$"), W("x")>> \o <<O("~"), W("p"), O("("), W("3"), O(")")>> \o RPAR \o GT \o cap
+    [] law = "dollar-cat-val"  -> fn \o LPAR \o ctx \o COMMA \o <<O("$"), W("x")>> \o <<O(":"), W("@T")>> \o <<O("="), W("1")>> \o RPAR \o GT \o <<W("y")>>
 Rhs(law, fn, cap, ctx) ==
   CASE law = "gt-vs-bang"      -> fn \o LPAR \o BANG \o cap \o RPAR
     [] law = "gt-with-context" -> fn \o LPAR \o ctx \o COMMA \o BANG \o cap \o RPAR
@@ -55,6 +59,10 @@ Rhs(law, fn, cap, ctx) ==
     [] law = "in-chain-call-as" -> <<W("h")>> \o LPAR \o ctx \o COMMA \o <<W("g")>> \o LPAR \o fn \o LPAR \o RPAR \o <<O("as"), W("r")>> \o RPAR \o RPAR
     [] law = "in-call-eq"      -> <<W("h")>> \o LPAR \o <<W("q")>> \o COMMA \o fn \o LPAR \o ctx \o COMMA \o <<W("#value"), O("="), W("1")>> \o RPAR \o RPAR
     [] law = "root-chain-call-as" -> <<W("g")>> \o LPAR \o fn \o LPAR \o ctx \o COMMA \o BANG \o <<W("#value"), O("as"), W("r")>> \o RPAR \o RPAR
+    [] law = "dollar-cat"      -> fn \o LPAR \o ctx \o RPAR \o GT \o <<W("*"), O("as"), W("x")>> \o <<O(":"), W("@T")>>
+    [] law = "dollar-val"      -> fn \o LPAR \o <<W("*"), O("as"), W("x")>> \o <<O("="), W("1")>> \o RPAR \o GT \o cap
+    [] law = "dollar-match"    -> fn \o LPAR \o <<W("*"), O("as"), W("x")>> \o <<O("~"), W("p"), O("("), W("3"), O(")")>> \o RPAR \o GT \o cap
+    [] law = "dollar-cat-val"  -> fn \o LPAR \o ctx \o COMMA \o <<W("*"), O("as"), W("x")>> \o <<O(":"), W("@T")>> \o <<O("="), W("1")>> \o RPAR \o GT \o <<W("y")>>
 VARIABLES law, fn, cap, ctx
 Init == law \in Laws /\ fn \in FnOps /\ cap \in CapOps /\ ctx \in CtxOps
 Next == UNCHANGED <<law, fn, cap, ctx>>
@@ -70,7 +78,7 @@ Focused(c) == IF c.k = "E" THEN (IF c.t1 THEN 1 ELSE 0)
                        SumC(i) == IF i = 0 THEN 0 ELSE fc(i) + SumC(i - 1)
                        SumK(i) == IF i = 0 THEN 0 ELSE fk(i) + SumK(i - 1)
                    IN SumC(Len(c.caps)) + SumK(Len(c.kids))
-RootLaws == {"gt-vs-bang", "gt-with-context", "chain-assoc", "chain-nested", "chain-ctx", "call-as", "call-ctx-as", "dollar", "dollar-in", "root-chain-call-as"}
+RootLaws == {"gt-vs-bang", "gt-with-context", "chain-assoc", "chain-nested", "chain-ctx", "call-as", "call-ctx-as", "dollar", "dollar-in", "root-chain-call-as", "dollar-cat", "dollar-val", "dollar-match", "dollar-cat-val"}
 OneFocus == (~IsErr(L) /\ law \in RootLaws) => Focused(SelectOf(L)) = 1
 \* inside another call's parentheses 'f() as r' and 'f(b)=c' carry no focus; '>' and '!' carry exactly one
 InnerFocus == (~IsErr(L) /\ law \in {"in-call-as", "in-chain-call-as", "in-call-eq"}) => Focused(SelectOf(L)) = 0
